@@ -16,7 +16,10 @@ use std::sync::{Arc, Mutex};
 use tokio::io::{AsyncReadExt, AsyncWriteExt};
 use uuid::Uuid;
 
-async fn mock_server(log: Arc<Mutex<Vec<String>>>) -> std::net::SocketAddr {
+/// milliseconds the mock session server waits before it answers (set by the histories below)
+pub static MOCK_DELAY_MS: AtomicU64 = AtomicU64::new(0);
+
+pub async fn mock_server(log: Arc<Mutex<Vec<String>>>) -> std::net::SocketAddr {
     let listener = tokio::net::TcpListener::bind("127.0.0.1:0").await.expect("bind");
     let addr = listener.local_addr().unwrap();
     tokio::spawn(async move {
@@ -43,6 +46,10 @@ async fn mock_server(log: Arc<Mutex<Vec<String>>>) -> std::net::SocketAddr {
                     buf.drain(..end);
                     let line = head.lines().next().unwrap_or("").to_string();
                     log.lock().unwrap().push(line);
+                    let d = MOCK_DELAY_MS.load(Ordering::Relaxed);
+                    if d > 0 {
+                        tokio::time::sleep(std::time::Duration::from_millis(d)).await;
+                    }
                     let body = br#"{"id":"069a79f444e94726a5befca90e38aaf5","name":"FromSessionServer","properties":[]}"#;
                     let resp = format!("HTTP/1.1 200 OK\r\ncontent-type: application/json\r\ncontent-length: {}\r\n\r\n", body.len());
                     if sock.write_all(resp.as_bytes()).await.is_err() || sock.write_all(body).await.is_err() {
@@ -156,7 +163,7 @@ fn e2e_cookie(age: i64, secret: &[u8], client_ip: &str, name: &str) -> Vec<u8> {
 
 /// The request made *for a connection*: the real Listener and Connection with the real MojangAdapter
 /// as authentication service; a client logs in over TCP and the mock records what was asked.
-fn end_to_end(rep: &Report, requests: &AtomicU64) {
+pub fn end_to_end(rep: &Report, requests: &AtomicU64) {
     run_local(async {
         let log = Arc::new(Mutex::new(vec![]));
         let mock = mock_server(log.clone()).await;
@@ -216,6 +223,78 @@ fn end_to_end(rep: &Report, requests: &AtomicU64) {
                 (true, other) => rep.violation(Violation { key: format!("e2e-request-count:{label}"), text: format!("{} has-joined requests for one connection: {other:?} (login {:?} {:?})", other.len(), out.stage, out.error), replay, weight: 1 }),
             }
         }
+        // Histories of several connections: the same claimed name with different shared secrets, one after
+        // the other and overlapping while the session server is slow. Every connection must cause exactly
+        // one request, asking about its claimed name with ITS OWN hash.
+        let hash_of = |secret: &[u8; 16], key: &[u8]| {
+            let mut all = secret.to_vec();
+            all.extend_from_slice(key);
+            minecraft_hex(&sha1(&all))
+        };
+        let histories: Vec<(&str, u64, u64, Vec<(&str, [u8; 16])>)> = vec![
+            // (label, mock delay ms, start offset between connections ms, [(claimed name, secret)])
+            ("same-name-sequential", 0, 0, vec![("Repeated", *b"secret-number-01"), ("Repeated", *b"secret-number-02"), ("Repeated", *b"secret-number-01")]),
+            ("same-name-overlapping", 600, 120, vec![("Twin", *b"secret-number-03"), ("Twin", *b"secret-number-04")]),
+            ("three-overlapping", 600, 60, vec![("Twin", *b"secret-number-05"), ("Other", *b"secret-number-05"), ("Twin", *b"secret-number-06")]),
+        ];
+        for (label, delay, offset, conns) in histories {
+            log.lock().unwrap().clear();
+            MOCK_DELAY_MS.store(delay, Ordering::Relaxed);
+            let overlapping = delay > 0;
+            let mut tasks = vec![];
+            for (i, (name, secret)) in conns.iter().enumerate() {
+                let (name, secret) = (name.to_string(), *secret);
+                let fut = async move {
+                    let Ok(mut c) = McClient::connect(addr, None).await else { return (name, secret, vec![], None) };
+                    let p = LoginParams { intent: 2, name: name.clone(), wait: std::time::Duration::from_secs(4), secret, ..Default::default() };
+                    let mut out = LoginOutcome { packets: vec![], stage: Stage::Connected, error: None };
+                    c.login(&p, Stage::Connected, Stage::LoginSuccessReceived, &mut out).await;
+                    let key = out.packets.iter().find_map(|p| if let Pkt::EncryptionRequest { public_key, .. } = p { Some(public_key.clone()) } else { None }).unwrap_or_default();
+                    let granted = out.packets.iter().find_map(|p| if let Pkt::LoginSuccess { name, .. } = p { Some(name.clone()) } else { None });
+                    (name, secret, key, granted)
+                };
+                if overlapping {
+                    tasks.push(tokio::task::spawn_local(async move {
+                        tokio::time::sleep(std::time::Duration::from_millis(offset * i as u64)).await;
+                        fut.await
+                    }));
+                } else {
+                    let r = fut.await;
+                    tasks.push(tokio::task::spawn_local(async move { r }));
+                }
+            }
+            let mut results = vec![];
+            for t in tasks {
+                if let Ok(r) = t.await {
+                    results.push(r);
+                }
+            }
+            MOCK_DELAY_MS.store(0, Ordering::Relaxed);
+            let mut seen: Vec<String> = log.lock().unwrap().clone();
+            let replay = json!({"e2e": label});
+            for (name, secret, key, granted) in &results {
+                let hash = hash_of(secret, key);
+                // one recorded request must be this connection's
+                match seen.iter().position(|line| judge_request(line, name, &hash).is_none()) {
+                    Some(i) => {
+                        seen.remove(i);
+                        requests.fetch_add(1, Ordering::Relaxed);
+                    }
+                    None => rep.violation(Violation {
+                        key: format!("e2e-no-request-with-this-connections-hash:{label}"),
+                        text: format!("history {label}: the connection claiming {name:?} with secret {} caused no has-joined request for that name with its own hash {hash} (granted: {granted:?}); unmatched requests: {seen:?}", common::hex(secret)),
+                        replay: replay.clone(),
+                        weight: 2,
+                    }),
+                }
+                if granted.is_none() {
+                    rep.violation(Violation { key: format!("e2e-login-failed:{label}"), text: format!("history {label}: the connection claiming {name:?} was not admitted"), replay: replay.clone(), weight: 2 });
+                }
+            }
+            if !seen.is_empty() {
+                rep.violation(Violation { key: format!("e2e-request-count:{label}"), text: format!("history {label}: requests that belong to no connection: {seen:?}"), replay, weight: 2 });
+            }
+        }
         stop.cancel();
         let _ = tokio::time::timeout(std::time::Duration::from_secs(2), done).await;
     });
@@ -265,8 +344,32 @@ pub fn run(cli: Cli) -> ! {
         names.dedup();
     }
     let server_ids = ["", "srv"];
-    let secrets: [[u8; 16]; 2] = [*b"0123456789abcdef", [0xff; 16]];
     let pubkey: Vec<u8> = (0..162u32).map(|i| (i * 5 + 1) as u8).collect();
+    // Shared secrets chosen (with the independent reference) so that the digests cover every combination
+    // of sign x last byte {00, 01, 80, ff, other} x leading zero nibbles {0, 1, 2+} that a counter search
+    // of 400 000 secrets reaches - the shapes where a hand-made signed-hex conversion goes wrong.
+    let edge_secrets = |sid: &str| -> Vec<[u8; 16]> {
+        let mut seen = std::collections::BTreeMap::new();
+        for i in 0u128..400_000 {
+            let secret = (i.wrapping_mul(0x9E37_79B9_7F4A_7C15_F39C_C060_5CED_C835) ^ 0x5a5a).to_be_bytes();
+            let mut all = sid.as_bytes().to_vec();
+            all.extend_from_slice(&secret);
+            all.extend_from_slice(&pubkey);
+            let d = sha1(&all);
+            let neg = d[0] & 0x80 != 0;
+            // magnitude shape: of the digest if positive, of its two's complement if negative
+            let h = minecraft_hex(&d);
+            let lead = (40 - h.trim_start_matches('-').len()).min(2);
+            let last = match d[19] { 0 => 0, 1 => 1, 0x80 => 2, 0xff => 3, _ => 4 };
+            seen.entry((neg, last, lead)).or_insert(secret);
+            if seen.len() == 30 {
+                break;
+            }
+        }
+        seen.into_values().collect()
+    };
+    let secrets_by_sid: Vec<Vec<[u8; 16]>> = server_ids.iter().map(|sid| edge_secrets(sid)).collect();
+    rep.set("digest_shape_classes_covered_by_the_secrets", json!(secrets_by_sid.iter().map(|v| v.len()).collect::<Vec<_>>()));
     let requests = AtomicU64::new(0);
     let errors = AtomicU64::new(0);
 
@@ -277,8 +380,8 @@ pub fn run(cli: Cli) -> ! {
         unsafe { std::env::set_var("PASSAGE_VERIF_SESSION_URL", format!("http://{addr}")) };
         let client: std::net::SocketAddr = "198.51.100.7:40123".parse().unwrap();
         for (ni, name) in names.iter().enumerate() {
-            for sid in server_ids {
-                let secret = &secrets[ni % 2];
+            for (si, sid) in server_ids.into_iter().enumerate() {
+                let secret = &secrets_by_sid[si][ni % secrets_by_sid[si].len()];
                 let adapter = MojangAdapter::default().with_server_id(sid.to_string());
                 let mut all = sid.as_bytes().to_vec();
                 all.extend_from_slice(secret);
@@ -319,7 +422,7 @@ pub fn run(cli: Cli) -> ! {
     rep.set("requests_captured", json!(n));
     rep.set("names_refused_by_the_client_library", json!(errors.load(Ordering::Relaxed)));
     rep.set("exhaustive", json!(true));
-    rep.set("rule", json!("every name X, aXb for X in a 24-symbol alphabet (a & = # ? % + space / \\ . : @ ; \" < CR LF TAB NUL é 😀 %26 ../), 15 targeted payloads, every XY and pXYq, every control byte alone and inside A_41, and in thorough every XYZ over a reduced alphabet of 12; x server id {\"\", \"srv\"}, two secrets; the raw request line recorded by the mock is parsed independently. Plus 8 whole connections (real Listener + Connection + MojangAdapter over TCP: login and transfer intents, names with special characters, stale / foreign / forged / valid cookies of another name) whose request must ask about the claimed name and that connection's hash. Non-trivial = the name contains a character outside [A-Za-z0-9_]."));
+    rep.set("rule", json!("every name X, aXb for X in a 24-symbol alphabet (a & = # ? % + space / \\ . : @ ; \" < CR LF TAB NUL é 😀 %26 ../), 15 targeted payloads, every XY and pXYq, every control byte alone and inside A_41, and in thorough every XYZ over a reduced alphabet of 12; x server id {\"\", \"srv\"}, shared secrets rotating over up to 30 digest shapes (sign x last byte x leading zero nibbles); the raw request line recorded by the mock is parsed independently. Plus 8 whole connections (real Listener + Connection + MojangAdapter over TCP: login and transfer intents, names with special characters, stale / foreign / forged / valid cookies of another name) whose request must ask about the claimed name and that connection's hash, and 3 histories of 2-3 connections claiming the same name with different shared secrets, one after the other and overlapping while the session server takes 600 ms, each of which must cause exactly one request with its own hash. Non-trivial = the name contains a character outside [A-Za-z0-9_]."));
     rep.sample(json!({"name": "Victim&serverId=0", "server_id": "srv", "expect": "one username parameter decoding to the whole name, one serverId equal to the hash"}));
     rep.sample(json!({"name": "a#", "expect": "username decodes to 'a#'; no raw # in the request target"}));
     rep.sample(json!({"name": names[names.len() / 2]}));
